@@ -23,6 +23,8 @@ struct cfg {
   int free_drops; /* >0: drops of the first N datagrams cost nothing (all drop subsets) */
   int late_timer; /* offer deadline-1 / deadline+1 timer alternatives */
   int verdict_choice; /* peer verdict is a choice point */
+  int same_token; /* the messages of the two sessions carry the same token and the context has a resource, so that a Reset
+                     makes the library withdraw queued messages by token (coap_cancel): only those of the Reset's session */
   int same_mid;   /* all sessions start from the same message id: equal mids on different sessions of one context */
   int notify;     /* >0: the context is also a server; a raw observer is registered and the script triggers this many
                      Confirmable notifications (they are created inside coap_io_prepare_io) */
@@ -400,7 +402,7 @@ app_op(void *a) {
   m->used = 1;
   m->sess = o->sess;
   m->is_con = o->kind == 0;
-  m->token = (uint8_t)(0xA0 + mi);
+  m->token = C->same_token ? 0xA0 : (uint8_t)(0xA0 + mi);
   coap_pdu_t *pdu = coap_new_pdu(m->is_con ? COAP_MESSAGE_CON : COAP_MESSAGE_NON, COAP_REQUEST_CODE_GET, sess[o->sess]);
   if (!pdu) {
     vx_fail("harness:new-pdu", "coap_new_pdu failed");
@@ -586,6 +588,10 @@ run(void *arg) {
     if (C->same_mid && i > 0)
       sess[i]->tx_mid = sess[0]->tx_mid;
   }
+  if (C->same_token && !C->notify) {
+    coap_resource_t *dr = coap_resource_init(coap_make_str_const("dummy"), 0);
+    coap_add_resource(ctx, dr);
+  }
   if (C->notify) {
     coap_address_t la;
     ns_addr(&la, 1, 5683);
@@ -649,9 +655,9 @@ static int ncfgs;
 static void
 add(struct cfg c) {
   cfgs = realloc(cfgs, sizeof *cfgs * (size_t)(ncfgs + 1));
-  snprintf(c.name, sizeof c.name, "c06:ato=%d,arf=%d,mr=%d,nreq=%d,nsess=%d,nstart=%d,non=%d,ans=%d%c,r=%d,stag=%d,fd=%d,late=%d,vc=%d,nfy=%d,sm=%d,B=%d",
+  snprintf(c.name, sizeof c.name, "c06:ato=%d,arf=%d,mr=%d,nreq=%d,nsess=%d,nstart=%d,non=%d,ans=%d%c,r=%d,stag=%d,fd=%d,late=%d,vc=%d,nfy=%d,sm=%d,st=%d,B=%d",
            c.ato_ms, c.arf_milli, c.max_retx, c.nreq, c.nsess, c.nstart, c.with_non, c.answer_from, c.verdict, c.rsel,
-           c.stagger, c.free_drops, c.late_timer, c.verdict_choice, c.notify, c.same_mid, c.bound);
+           c.stagger, c.free_drops, c.late_timer, c.verdict_choice, c.notify, c.same_mid, c.same_token, c.bound);
   cfgs[ncfgs++] = c;
 }
 
@@ -710,6 +716,13 @@ main(int argc, char **argv) {
             /* the two sessions use equal message ids: an ACK / RST must only ever affect its own session's message */
             c.same_mid = 1;
             add(c);
+            c.same_mid = 0;
+            if (nr == 2) {
+              /* ... and equal tokens (every session's first token is the same): a Reset withdraws by token, on its own session only */
+              c.same_token = 1;
+              add(c);
+              c.same_token = 0;
+            }
           }
         }
   /* (4) Confirmable notifications: created inside coap_io_prepare_io() while requests share the send queue */
@@ -725,7 +738,7 @@ main(int argc, char **argv) {
   vx_ev_rule("executions of a real libcoap client context against raw peers under a virtual clock; enumerated: "
              "configuration product (ACK_TIMEOUT x ACK_RANDOM_FACTOR x MAX_RETRANSMIT x r byte x peer-silence length x verdict; plus ACK_TIMEOUT 45 s x 1.5), "
              "all 2^10 drop subsets of the first 10 datagrams, and all schedules with <= bound deviations "
-             "(drop/dup/reorder/timer-first/timer +-1ms/other peer verdict) for multi-message scripts (two sessions also with equal message ids), also with 1-2 Confirmable observe notifications (created inside coap_io_prepare_io by the same context acting "
+             "(drop/dup/reorder/timer-first/timer +-1ms/other peer verdict) for multi-message scripts (two sessions also with equal message ids, and with equal tokens on a context that has a resource), also with 1-2 Confirmable observe notifications (created inside coap_io_prepare_io by the same context acting "
              "as server for a raw observer) sharing the send queue; an execution is "
              "non-trivial when a retransmission, give-up or deviation occurred; distinct = distinct observation logs");
   vx_ev_assumption("peers are raw addresses driven by the harness; no ping_timeout configured (libcoap then deliberately caps the retransmission delay)");
